@@ -15,9 +15,15 @@ E == Tr[l]
 \* discriminators: predicates over the configuration that name a root-caused defect class
 Disc(prop, cfg) ==
   CASE prop = "C04" /\ cfg.signed /\ cfg.p < 8 -> "signed-P<8"
+    [] prop = "C06" -> IF cfg.hasmin = 1 /\ (cfg.nl = 0 \/ cfg.info.rows = 1 \/ cfg.info.cols = 1)
+                       THEN "min-sample-in-untransformed-band" ELSE "-"
     [] prop = "C19" -> IF OriginIndependent(cfg.w, cfg.h, cfg.tw, cfg.th, cfg.levels, cfg.cbw, cfg.cbh)
                        THEN "origin-independent" ELSE "tile-origin-ignored"
     [] OTHER -> "-"
+
+\* configuration record of a codec-level encode event (the source bytes stay out of it)
+CCfg == [ts |-> E.ts, info |-> E.info, params |-> E.params, cls |-> E.cls, nin |-> E.nin, srcsha |-> E.srcsha,
+         hasmin |-> E.hasmin, nl |-> J2kLevels(E.hdr)]
 
 EncReason == IF E.err # "" THEN "encode error" ELSE "ok"
 DecReason ==
@@ -29,7 +35,15 @@ DecReason ==
               [] cur.rel = "near"      -> NearReason(cur.src, E.out, cur.cfg.near, cur.cfg.p)
               [] OTHER -> "ok"
 
-Reason == CASE E.ev = "enc" -> EncReason [] E.ev = "dec" -> DecReason [] OTHER -> "ok"
+\* codec-level events (registered codec through PixelData): byte identity of every frame
+CEncReason == IF E.err # "" THEN "encode error"
+              ELSE IF E.nout # E.nin THEN "encoded frame count" ELSE "ok"
+CDecReason == IF E.err # "" THEN "decode error"
+              ELSE IF E.nout # cur.cfg.nin THEN "decoded frame count"
+              ELSE IF E.out # cur.src \/ E.outsha # cur.cfg.srcsha THEN "frames differ" ELSE "ok"
+
+Reason == CASE E.ev = "enc" -> EncReason [] E.ev = "dec" -> DecReason
+            [] E.ev = "cenc" -> CEncReason [] E.ev = "cdec" -> CDecReason [] OTHER -> "ok"
 
 Init == l = 1 /\ mode = "run" /\ cur = [prop |-> "", rel |-> "", cfg |-> <<>>, src |-> <<>>] /\ nacc = 0
 Step ==
@@ -39,8 +53,9 @@ Step ==
      ELSE LET r == Reason IN
           IF r = "ok"
           THEN /\ mode' = mode /\ nacc' = nacc + (IF E.ev = "dec" THEN 1 ELSE 0)
-               /\ cur' = IF E.ev = "enc" THEN [cur EXCEPT !.cfg = E.cfg, !.src = E.src] ELSE cur
-          ELSE LET cfg == IF E.ev = "enc" THEN E.cfg ELSE cur.cfg IN
+               /\ cur' = IF E.ev = "enc" THEN [cur EXCEPT !.cfg = E.cfg, !.src = E.src]
+                         ELSE IF E.ev = "cenc" THEN [cur EXCEPT !.cfg = CCfg, !.src = E.src] ELSE cur
+          ELSE LET cfg == IF E.ev = "enc" THEN E.cfg ELSE IF E.ev = "cenc" THEN CCfg ELSE cur.cfg IN
                /\ PrintT("@@REJECT|" \o ToString(E.scn) \o "|" \o ToString(E.k) \o "|" \o cur.prop \o "/roundtrip/" \o r
                           \o "/" \o Disc(cur.prop, cfg) \o "|" \o ToString(cfg) \o " err=" \o E.err)
                /\ mode' = "skip" /\ UNCHANGED <<cur, nacc>>
